@@ -174,6 +174,7 @@ func checkC11(c *Check) {
 	type reader struct {
 		fn, how string
 		pos     token.Pos
+		fi      *FuncInfo
 	}
 	var readers []reader
 	for _, fi := range L.sortedFuncs() {
@@ -190,7 +191,7 @@ func checkC11(c *Check) {
 				s := types.ExprString(side)
 				if strings.HasSuffix(s, "ptimizationLevel") {
 					if t := pinfo.TypeOf(side); t != nil && t.String() == "uint" {
-						readers = append(readers, reader{L.QName(fi.Obj), types.ExprString(be), be.Pos()})
+						readers = append(readers, reader{L.QName(fi.Obj), types.ExprString(be), be.Pos(), fi})
 					}
 				}
 			}
@@ -204,6 +205,28 @@ func checkC11(c *Check) {
 		"compiler.Compile":                    "selects whether LLVM's passes run",
 		"compiler.DumpListDefinitions":        "selects whether LLVM's passes run on the list definitions",
 	}
+	var classOfCallers func(fi *FuncInfo, depth int) (string, string)
+	classOfCallers = func(fi *FuncInfo, depth int) (string, string) {
+		if fi == nil || fi.Obj == nil || fi.Obj.Exported() || depth > 3 {
+			return "", ""
+		}
+		sites := L.CallSites(fi.Obj)
+		if len(sites) == 0 {
+			return "", ""
+		}
+		how, via := "", ""
+		for _, cs := range sites {
+			h, v := class[L.QName(cs.Fn.Obj)], L.QName(cs.Fn.Obj)
+			if h == "" {
+				h, v = classOfCallers(cs.Fn, depth+1)
+			}
+			if h == "" || (how != "" && h != how) {
+				return "", ""
+			}
+			how, via = h, v
+		}
+		return how, via
+	}
 	sort.Slice(readers, func(i, j int) bool { return readers[i].fn+readers[i].how < readers[j].fn+readers[j].how })
 	seen := map[string]int{}
 	for _, rd := range readers {
@@ -214,6 +237,9 @@ func checkC11(c *Check) {
 		}
 		if how, ok := class[rd.fn]; ok {
 			r3.OK(key, rd.pos, rd.how+": "+how)
+		} else if how, via := classOfCallers(rd.fi, 0); how != "" {
+			// a helper all of whose callers (transitively) are classified places of one class: the decision was moved, not added
+			r3.OK(key, rd.pos, rd.how+": "+how+" (in a helper called only from "+via+")")
 		} else {
 			r3.Und(key, rd.pos, rd.how+": a decision that depends on the optimisation level outside the classified places; whether behaviour can differ between levels here is not decided by this checker")
 		}
